@@ -56,6 +56,23 @@ def modelChain (topic : Bytes) (delta : Nat) (a b c : OpInst) : Option String :=
         let sc := if sb == "hang" then "hang" else showOutcome rc
         some s!"{showOutcome ra} {sb} {sc}"
 
+/-- A answered under the size prefix `size` (any int32) instead of the body's length + 4, then B -/
+def modelSize (topic : Bytes) (size : Int) (a b : OpInst) : Option String :=
+  let stream := be4 ((size % 4294967296).toNat) ++ be4 1 ++ a.body ++ frame 2 b.body
+  match runInstL false topic a (⟨stream, 1, false⟩, false) with
+  | none => none
+  | some (ra, c1) =>
+    match runInstL false topic b c1 with
+    | none => none
+    | some (rb, _) => some s!"{showOutcome ra} {if showOutcome ra == "hang" then "hang" else showOutcome rb}"
+
+/-- a size prefix below 4 is a framing error: A and B fail (and return); otherwise only "both return" is demanded
+(what a lying prefix does to the stream is judged by model agreement) -/
+def monitorSize (size : Int) (impl : String) : Bool :=
+  match words impl with
+  | [ra, rb] => if size < 4 then isFailStr ra && isFailStr rb else isDone ra && isDone rb
+  | _ => false
+
 /-- after a framing error every later operation fails (and returns: `hang` is not a failure, it is a hang) -/
 def monitorChain (impl : String) : Bool :=
   match words impl with
@@ -73,6 +90,13 @@ def step (line : String) : String :=
         | some m => s!"model={m} holds={if monitorChain impl then 1 else 0}"
         | none => "bad-op"
       | _, _, _, _, _ => "bad-args"
+    | ["c11z", t, z, sa, ha, sb, hb] =>
+      match ofHex t, z.toInt?, parseInst sa ha, parseInst sb hb with
+      | some topic, some size, some a, some b =>
+        match modelSize topic size a b with
+        | some m => s!"model={m} holds={if monitorSize size impl then 1 else 0}"
+        | none => "bad-op"
+      | _, _, _, _ => "bad-args"
     | ["c11", t, sa, ha, sb, hb] =>
       match ofHex t, parseInst sa ha, parseInst sb hb with
       | some topic, some a, some b =>
